@@ -41,7 +41,9 @@ type runRec struct {
 	K    int      `json:"k"`
 	F0   int      `json:"f0"`  // 1: the writer is shared with an earlier call of the history and failed there
 	Ifs  []string `json:"ifs"` // optional interfaces of the writer (StringWriter, ByteWriter, ReaderFrom)
-	Via  []int    `json:"via"` // method of each logged call: 0 Write, 1 WriteString, 2 WriteByte, 3 ReadFrom
+	Fl   string   `json:"fl"`  // what the writer's Flush method returns ("none": no Flush method)
+	Ek   string   `json:"ek"`  // class of the error values the writer returns
+	Via  []int    `json:"via"` // method of each logged call: 0 Write, 1 WriteString, 2 WriteByte, 3 ReadFrom, 4 Flush
 	Off  []int    `json:"off"`
 	Acc  []int    `json:"acc"`
 	Err  []int    `json:"err"`
@@ -100,7 +102,7 @@ func runOne(id, src int, s *subject, b behaviour, rng *rand.Rand) *runRec {
 func runOn(id, src int, s *subject, w *iw, wr io.Writer) *runRec {
 	b := w.b
 	start, sink0, sw0 := len(w.log), len(w.sink), w.sinkW
-	r := &runRec{ID: id, Mode: b.Mode, P: b.Piece, K: w.cap, Ifs: ifaceNames(b.Ifs), src: src, b: b, Slen: len(s.Str), Bc: len(s.ChunksBy[b.Ifs&ifAll])}
+	r := &runRec{ID: id, Mode: b.Mode, P: b.Piece, K: w.cap, Ifs: ifaceNames(b.Ifs), Fl: b.flush(), Ek: b.errk(), src: src, b: b, Slen: len(s.Str), Bc: len(s.ChunksBy[b.Ifs&ifAll])}
 	if b.Sticky {
 		r.St = 1
 	}
@@ -372,6 +374,33 @@ func design(rep *mbt.Report, tier string) {
 	for _, inv := range []string{"NoSharedRecovery", "NoSharedStuck", "NoThirdSharedCall", "NoFullCountError"} {
 		add("vacuity-shared/"+inv, "Writer", "WriterShared.cfg", []string{inv}, nil, []string{inv})
 	}
+	// Faults by VALUE and the Flusher capability (WriterFaults.cfg): error values of several classes, the
+	// transient failure "once", writers with a Flush method.  As written every law holds for all of them.
+	faults := map[string]string{}
+	devFaults := map[string]string{"MaxChunks": "2", "UnitSizes": "{0, 1, 2}"}
+	if tier == "thorough" {
+		faults = map[string]string{"MaxChunks": "4"}
+		devFaults = map[string]string{}
+	}
+	add("faults-by-value-and-flushers", "Writer", "WriterFaults.cfg", nil, faults, nil)
+	// WriteTo ends with Flush() of a writer that has it and returns Flush's result: the latched error is lost
+	// when Flush does not repeat it, and the writer is called after its failure
+	flushEnd := merge(devFaults, map[string]string{"FlushAtEnd": "TRUE"})
+	for _, inv := range []string{"FirstError", "NoWriteAfterFailure"} {
+		add("flush-at-end/"+inv, "Writer", "WriterFaults.cfg", []string{inv}, flushEnd, []string{inv})
+	}
+	add("flush-at-end/other-laws", "Writer", "WriterFaults.cfg", []string{"CountExact", "PrefixDelivered", "NoFailEqualsString"}, flushEnd, nil)
+	add("flush-at-end/invisible-without-Flush-method", "Writer", "WriterFaults.cfg", nil, merge(flushEnd, map[string]string{"FlushKinds": `{"none"}`}), nil)
+	add("flush-at-end/first-error-kept-by-sticky-flushers", "Writer", "WriterFaults.cfg", []string{"FirstError", "CountExact"}, merge(flushEnd, map[string]string{"FlushKinds": `{"none", "sticky"}`}), nil)
+	// a Write that failed with an error of a special-cased class is re-issued with the whole buffer
+	retry := merge(devFaults, map[string]string{"RetryKinds": `{"eintr"}`})
+	for _, inv := range []string{"NoWriteAfterFailure", "FirstError", "PrefixDelivered", "CountExact"} {
+		add("retry-on-eintr/"+inv, "Writer", "WriterFaults.cfg", []string{inv}, retry, []string{inv})
+	}
+	add("retry-on-eintr/invisible-with-opaque-errors", "Writer", "WriterFaults.cfg", nil, merge(retry, map[string]string{"ErrKinds": `{"plain"}`}), nil)
+	for _, inv := range []string{"NoTransientFailure", "NoFailedFlusher"} {
+		add("vacuity-faults/"+inv, "Writer", "WriterFaults.cfg", []string{inv}, devFaults, []string{inv})
+	}
 	sem := make(chan struct{}, 5)
 	var wg sync.WaitGroup
 	for _, j := range jobs {
@@ -394,7 +423,7 @@ func design(rep *mbt.Report, tier string) {
 			mbt.Infra("Writer.tla, configuration %s: TLC reports violated=%v, the specification expects %v (specification error)", j.name, got, want)
 		}
 		outcome[j.name] = map[string]interface{}{"states": j.res.Distinct, "violated": got}
-		if j.name == "as-written" || j.name == "rechunk-equiv" || j.name == "shared-writer" {
+		if j.name == "as-written" || j.name == "rechunk-equiv" || j.name == "shared-writer" || j.name == "faults-by-value-and-flushers" {
 			rep.AddTLC(j.res)
 		}
 		j.res.Cleanup()
@@ -548,12 +577,12 @@ func describe(r *runRec) string {
 			first = j + 1
 		}
 	}
-	methods := [4]int{}
+	methods := [5]int{}
 	for _, v := range r.Via {
-		methods[v&3]++
+		methods[v%5]++
 	}
-	return fmt.Sprintf("WriteTo returned n=%d err=%s; writer saw %d calls (%d Write, %d WriteString, %d WriteByte, %d ReadFrom), accepted %d bytes, first failing call %d; %d bytes delivered, %d of them a prefix of String() (len %d)",
-		r.N, errName(r.E), len(r.Off), methods[0], methods[1], methods[2], methods[3], acc, first, r.Dlen, r.Lcp, r.Slen)
+	return fmt.Sprintf("WriteTo returned n=%d err=%s; writer saw %d calls (%d Write, %d WriteString, %d WriteByte, %d ReadFrom, %d Flush), accepted %d bytes, first failing call %d; %d bytes delivered, %d of them a prefix of String() (len %d)",
+		r.N, errName(r.E), len(r.Off), methods[0], methods[1], methods[2], methods[3], methods[4], acc, first, r.Dlen, r.Lcp, r.Slen)
 }
 
 func maxInt(a []int) int {
@@ -603,7 +632,7 @@ func (r *runRec) context(subs []*subject) string {
 
 // caseOf is the replayable description of a run: the call itself and the call made just before it.
 func caseOf(subs []*subject, r *runRec) map[string]interface{} {
-	c := map[string]interface{}{"subject": subs[r.src].Name, "mode": r.b.Mode, "sticky": r.b.Sticky, "piece": r.b.Piece, "cap": r.b.Cap, "ifs": r.b.Ifs,
+	c := map[string]interface{}{"subject": subs[r.src].Name, "mode": r.b.Mode, "sticky": r.b.Sticky, "piece": r.b.Piece, "cap": r.b.Cap, "ifs": r.b.Ifs, "flush": r.b.Flush, "errk": r.b.ErrK,
 		"observed": map[string]interface{}{"n": r.N, "e": r.E, "calls": len(r.Off), "dlen": r.Dlen, "lcp": r.Lcp, "slen": r.Slen}}
 	if r.Sh > 0 { // the whole history on the one writer is replayed
 		var names []string
@@ -615,7 +644,7 @@ func caseOf(subs []*subject, r *runRec) map[string]interface{} {
 		return c
 	}
 	if r.pre != nil {
-		c["pre"] = map[string]interface{}{"subject": subs[r.pre.src].Name, "mode": r.pre.b.Mode, "sticky": r.pre.b.Sticky, "piece": r.pre.b.Piece, "cap": r.pre.b.Cap, "ifs": r.pre.b.Ifs}
+		c["pre"] = map[string]interface{}{"subject": subs[r.pre.src].Name, "mode": r.pre.b.Mode, "sticky": r.pre.b.Sticky, "piece": r.pre.b.Piece, "cap": r.pre.b.Cap, "ifs": r.pre.b.Ifs, "flush": r.pre.b.Flush, "errk": r.pre.b.ErrK}
 	}
 	return c
 }
@@ -829,7 +858,9 @@ func Run(tier, replay string) {
 		num := func(k string) int { f, _ := c[k].(float64); return int(f) }
 		mode, _ := c["mode"].(string)
 		st, _ := c["sticky"].(bool)
-		return behaviour{Mode: mode, Sticky: st, Piece: num("piece"), Cap: num("cap"), Ifs: num("ifs")}
+		fl, _ := c["flush"].(string)
+		ek, _ := c["errk"].(string)
+		return behaviour{Mode: mode, Sticky: st, Piece: num("piece"), Cap: num("cap"), Ifs: num("ifs"), Flush: fl, ErrK: ek}
 	}
 
 	if replay != "" {
@@ -990,6 +1021,22 @@ func Run(tier, replay string) {
 					}
 				}
 			}
+		}
+		// Faults by value and flushers: at every offset tried, a transient failure ("once": everything after
+		// the failing Write would be accepted) with an error value of each class in turn; the other modes with
+		// the classes in turn; and writers that have a Flush method (no-op, sticky, failing) in each mode in turn.
+		faultModes := []string{"once", "whole", "prefix", "edge"}
+		for i, k := range ks {
+			ek := errKinds[1+i%(len(errKinds)-1)]
+			newRun(si, behaviour{Mode: "once", Piece: pieces[i%len(pieces)], Cap: k, ErrK: ek, Ifs: []int{0, ifStringWriter, ifAll}[i%3]}, 0)
+			mode := faultModes[(i/2)%len(faultModes)]
+			newRun(si, behaviour{Mode: mode, Sticky: mode != "edge" && mode != "once" && i%3 == 0, Cap: k, ErrK: errKinds[(i/3)%len(errKinds)]}, 0)
+			fmode := faultModes[i%len(faultModes)]
+			newRun(si, behaviour{Mode: fmode, Sticky: (fmode == "whole" || fmode == "prefix") && i%2 == 0, Piece: pieces[(i/4)%len(pieces)], Cap: k,
+				Flush: flushKinds[(i/4)%len(flushKinds)], ErrK: errKinds[(i/12)%len(errKinds)], Ifs: []int{0, ifAll, ifStringWriter, ifByteWriter | ifReaderFrom}[(i/3)%4]}, 0)
+		}
+		for i, fl := range flushKinds { // never-failing writers that have a Flush method
+			newRun(si, behaviour{Mode: "never", Piece: []int{0, 7}[i%2], Flush: fl, Ifs: []int{0, ifAll, ifStringWriter}[i%3]}, 0)
 		}
 		for i, k := range offsets(L, s.Chunks, false, stride) {
 			for _, mode := range []string{"whole", "prefix", "edge"} {
